@@ -13,7 +13,8 @@ EXPLANATION = (
     "rebuilt through the constructor or out.set_val. Residual: values returned by NumPy fallbacks (_wrapped_numpy_func); Python ints in "
     "[2^63, 2^64) hit the known int64 carrier finding reported under C19."
     ' Added after the third round of seeded changes: the word cap and the size assembly of set_best_sizes (C06.R2/R3), both range tests of the overflow handler (C04.R1), the machine carrier int64/uint64 (C18.R5) and the absence of class-level state writes (C20.R7) are included because the well-formedness of produced objects leans on them.'
-    ' Added after the fourth round of seeded changes: constructor state incl. re-computation of the scaled indicator after a like=/template copy (C20.R2); value-type promotion on mapped paths (C17.R8); C20.R8 objects carry only the documented attributes and no function writes module-level containers (no caches / memos that go stale).')
+    ' Added after the fourth round of seeded changes: constructor state incl. re-computation of the scaled indicator after a like=/template copy (C20.R2); value-type promotion on mapped paths (C17.R8); C20.R8 objects carry only the documented attributes and no function writes module-level containers (no caches / memos that go stale).'
+    ' Added after the fifth round of seeded changes: C20.R8 also forbids mutable default arguments and private attributes hung on operands (x._cache, x.__dict__[...]).')
 ASSUMPTIONS = ["attribute writes through setattr()/__dict__ are not used for format fields (checked: only copy of whole __dict__ in the constructor)"]
 TRUSTED = ["CPython ast", "fxlint term normaliser (cross-checked on an integer grid when terms differ)"]
 
